@@ -16,6 +16,7 @@ from ..engine import R, Sub
 from .c11 import steps_for, mk_path
 
 PROPERTY = 'C12'
+LEVEL = 'fault_enumeration'
 ASSUMPTIONS = [
     'deletion of one step: mapping -> del d[seg], list -> del l[int(seg)], otherwise delattr; T[..] -> delitem, T.attr -> delattr',
     'missing final element = KeyError / IndexError / AttributeError (and ValueError from int()) of that plain deletion; any other failure is a fault: '
